@@ -8,7 +8,7 @@ EXPLANATION = ("Part 1: CrossHair executes the real filter_nocl_comment_tokens o
 
 def run(ctx):
     ctx.functions += ["source_utils.filter_nocl_comment_tokens", "Token.is_comment", "scope_utils._filter_nocl_scopes (part 2)", "Scanner.scan_file (part 2)"]
-    alpha = " noclNx" if ctx.quick() else " noclNOx#"
+    alpha = " nocl;,x" if ctx.quick() else " noclNO;,x#"
     nb = 4 if ctx.quick() else 5
     ctx.bounds = {"marked": "leader in {#, //, /*} x 0..3 blanks x every letter-case combination of 'nocl' x 8 tails x 4 comment kinds x any line",
                   "unmarked": f"leader x 0..1 blanks x every body of length 1..{nb} over the alphabet {alpha!r}"}
